@@ -81,7 +81,15 @@ func newEnv(cfg map[string]interface{}, variant int) *env {
 			pre[variant%e.n].VotingPower = 0 // ... or RAISED by it (a stale total would be too small: sub-quorum commits)
 		}
 		e.valSet = types.NewValidatorSet(pre)
-		e.valSet.TotalVotingPower() // populate the cache before the change
+		if (variant/6)%2 == 0 {
+			e.valSet.TotalVotingPower() // populate the cache before the change
+		} else {
+			// ... or the Update meets a set whose total is NOT cached (as after a reload, or after an Add/Remove in the same block)
+			extra := crypto.GenPrivKeyEd25519FromSecret([]byte("verif-extra"))
+			ev := types.NewValidator(extra.PubKey(), 7, true)
+			e.valSet.Add(ev)
+			e.valSet.Remove(ev.Address)
+		}
 		e.valSet.Update(vals[variant%e.n])
 	case 2:
 		extra := crypto.GenPrivKeyEd25519FromSecret([]byte("verif-extra"))
